@@ -1,0 +1,17 @@
+//go:build verif
+
+package file
+
+import "github.com/ozontech/file.d/pipeline"
+
+// VerifOut calls the batch output function the batcher workers call (verification only).
+func (p *Plugin) VerifOut(workerData *pipeline.WorkerData, batch *pipeline.Batch) {
+	p.out(workerData, batch)
+}
+
+// VerifFileName is the path of the file currently written to.
+func (p *Plugin) VerifFileName() string {
+	p.mu.RLock()
+	defer p.mu.RUnlock()
+	return p.file.Name()
+}
